@@ -825,6 +825,7 @@ func runXmlIn(c Case, emit Emitter) {
 		xmlinFail(err.Error())
 	}
 	lim, lim2 := xmlinLimits(in)
+	t0 := time.Now()
 	if xmlinCur == nil {
 		xmlinCur = xmlinStart()
 	}
@@ -861,5 +862,5 @@ func runXmlIn(c Case, emit Emitter) {
 		}
 	}
 	emit(Ev{"ev": "step", "case": c.ID, "op": op, "inwf": out.inwf, "ntok": out.ntok, "size": out.size,
-		"calls": calls, "pmsg": out.pmsg, "retried": retried})
+		"calls": calls, "pmsg": out.pmsg, "retried": retried, "ms": time.Since(t0).Milliseconds()})
 }
